@@ -166,6 +166,38 @@ func driveC08(o opts) error {
 			}
 			lists = append(lists, cs)
 		}
+		// the components of a multi-column index (schema name+n, client name+tag, tag+m[k2], m[k1]+m[k2]) taken from one
+		// row, named in the order of the index and in other orders, alone or with an unrelated condition in between
+		if len(rowList) > 0 {
+			for _, group := range [][]string{{"name", "n"}, {"name", "tag"}, {"m:k2", "tag"}, {"m:k1", "m:k2"}} {
+				if !g.Chance(0.6) {
+					continue
+				}
+				src := rowList[g.Intn(len(rowList))]
+				var cs []Cond
+				for _, comp := range group {
+					if strings.HasPrefix(comp, "m:") {
+						k := comp[2:]
+						v := gen.AtomN('s', 0)
+						for _, p := range src["m"].Map {
+							if p[0].S == k {
+								v = p[1]
+							}
+						}
+						cs = append(cs, Cond{Col: "m", Fn: "includes", Arg: val.VM([2]val.Atom{val.Str(k), v})})
+					} else {
+						cs = append(cs, Cond{Col: comp, Fn: "==", Arg: src[comp]})
+					}
+				}
+				if g.Chance(0.6) {
+					cs[0], cs[1] = cs[1], cs[0]
+				}
+				if g.Chance(0.4) {
+					cs = []Cond{cs[0], genCond(g, cols, rowList, uuids, pool, 3), cs[1]}
+				}
+				lists = append(lists, cs)
+			}
+		}
 		// lone conditions on zero / absent values (rows lacking a map key are
 		// indexed under the zero value; an unset optional under nil)
 		for _, zc := range []Cond{
